@@ -120,7 +120,10 @@ type Store struct {
 	cleanup func()
 	dir     string // real directory (fsdir, sfsdir), or bolt file dir
 	reopen  func() (gofakes3.Backend, error)
+	Ext     *extServer // the real server binary instead of an in-process backend (kinds *bin)
 }
+
+type gofakes3Backend = gofakes3.Backend
 
 func (s *Store) Close() {
 	if s.cleanup != nil {
@@ -135,6 +138,9 @@ const singleBucketName = "bkt"
 var allKinds = []string{"mem", "bolt", "fsmem", "fsdir", "sfsmem", "sfsdir"}
 
 func newStore(kind string) *Store {
+	if isExt(kind) {
+		return newExtStore(kind)
+	}
 	switch kind {
 	case "mem":
 		return &Store{Kind: kind, Backend: s3mem.New(s3mem.WithVersionSeed(7))}
@@ -217,7 +223,7 @@ func newStore(kind string) *Store {
 	panic("unknown backend kind " + kind)
 }
 
-func isSingle(kind string) bool { return kind == "sfsmem" || kind == "sfsdir" }
+func isSingle(kind string) bool { return kind == "sfsmem" || kind == "sfsdir" || kind == "sfsbin" }
 
 func newServer(b gofakes3.Backend, opts ...gofakes3.Option) http.Handler {
 	o := []gofakes3.Option{
@@ -247,12 +253,20 @@ type Req struct {
 	Reader io.Reader // overrides Body when set
 }
 
+var doCounter int64
+
 func do(h http.Handler, rq Req) (resp Resp) {
 	var body io.Reader
 	if rq.Reader != nil {
 		body = rq.Reader
 	} else if rq.Body != nil {
-		body = bytes.NewReader(rq.Body)
+		// net/http hands a handler the end of a Content-Length body together with its last bytes;
+		// a bytes.Reader reports it in a separate read. Alternate between the two.
+		if n := atomic.AddInt64(&doCounter, 1); n%2 == 1 && len(rq.Body) > 0 {
+			body = &fragReader{data: append([]byte{}, rq.Body...), eofWith: true}
+		} else {
+			body = bytes.NewReader(rq.Body)
+		}
 	}
 	target := rq.Path
 	var r *http.Request
